@@ -205,6 +205,53 @@ def router_now_ms():
     return VCLOCK.its_ms() % 2 ** 32
 
 
+RX_KINDS = ("shb", "beacon", "tsb", "gbc", "gac", "guc", "lsreq", "lsrep")
+
+
+def check_rx_hops_all_types(ctx, pairs):
+    """RHL > MHL must be discarded for every packet type (no delivery, no location table entry, nothing sent)"""
+    from . import stack
+    for kind in RX_KINDS:
+        for (rhl, mhl) in pairs:
+            ll = CaptureLL()
+            router = make_router(ll, local_mid=0x0A0B0C0D0E01, ego=(413800000, 21100000))
+            got = []
+            router.register_indication_callback(got.append)
+            src = (0, 5, 0x0A0B0C0D0E04)
+            me = (0, 5, 0x0A0B0C0D0E01)
+            now = router_now_ms()
+            area = (413800000, 21100000, 500, 500, 0)
+            if kind == "shb":
+                pkt = stack.shb_bytes(src, now, 413800100, 21100100, b"xyz")
+            elif kind == "beacon":
+                pkt = stack.beacon_bytes(src, now, 413800100, 21100100)
+            elif kind == "tsb":
+                pkt = stack.tsb_bytes(src, 5, now, 413800100, 21100100, b"xyz")
+            elif kind in ("gbc", "gac"):
+                pkt = stack.gbc_bytes(src, 5, now, 413800100, 21100100, area, b"xyz", ht=4 if kind == "gbc" else 3)
+            elif kind == "guc":
+                pkt = stack.guc_bytes(src, 5, now, 413800100, 21100100, (me, now, 413800000, 21100000), b"xyz")
+            elif kind == "lsreq":
+                pkt = stack.ls_request_bytes(src, 5, now, 413800100, 21100100, me)
+            else:
+                pkt = stack.ls_reply_bytes(src, 5, now, 413800100, 21100100, (me, now, 413800000, 21100000))
+            b = bytearray(pkt)
+            b[3], b[10] = rhl, mhl
+            try:
+                router.gn_data_indicate(bytes(b))
+            except Exception:  # noqa: BLE001 - whether this may propagate is C04's question
+                pass
+            learnt = router.location_table.get_entry(gn_addr(src[2], src[1])) is not None
+            ctx.count(1, "rx_rhl_mhl_" + kind)
+            inp = {"op": "receive", "kind": kind, "rhl": rhl, "mhl": mhl}
+            if rhl > mhl and (got or learnt or ll.sent):
+                ctx.property_failure("rx_rhl_gt_mhl", inp, "packet with RHL > MHL was not discarded",
+                                     "discard", {"delivered": len(got), "loct": learnt, "sent": len(ll.sent)})
+            if rhl <= mhl and not learnt:
+                ctx.property_failure("rx_rhl_le_mhl", inp, "valid packet with RHL <= MHL was not processed", "process", None)
+            ctx.nontriv(("rxall", kind, rhl, mhl))
+
+
 def check_rx_hops(ctx, pairs):
     """a receiver discards packets whose remaining hop limit exceeds their maximum."""
     from .stack import shb_bytes
@@ -274,6 +321,7 @@ def run(ctx):
         check_hops(ctx, (10, 1, 2, 255), list(range(0, 256, 1)), (None,))
         check_hops(ctx, (10,), (0, 1, 2, 10, 255), (0, 49, 50, 999, 1000, 1050, 15000, 600000, 999999))
         check_rx_hops(ctx, [(r, m) for r in (0, 1, 2, 9, 10, 11, 128, 254, 255) for m in (0, 1, 2, 10, 11, 255)])
+        check_rx_hops_all_types(ctx, [(2, 1), (1, 1), (1, 0), (255, 254), (10, 10), (3, 10), (11, 10)])
         ctx.exhaustive = False
     else:
         check_lt_range(ctx, 0, 7_000_001, False)
@@ -281,6 +329,7 @@ def run(ctx):
         check_hops(ctx, (10, 1, 2, 3, 255), list(range(256)), (None, 50, 1000))
         check_rx_hops(ctx, [(r, m) for r in range(0, 256, 5) for m in range(0, 256, 5)] +
                       [(r, r + d) for r in range(256) for d in (-1, 0, 1) if 0 <= r + d < 256])
+        check_rx_hops_all_types(ctx, [(r, r + d) for r in (0, 1, 2, 5, 10, 128, 254, 255) for d in (-1, 0, 1) if 0 <= r + d < 256])
         ctx.exhaustive = True
 
 
